@@ -672,7 +672,7 @@ theorem unslice_restitch_cols (dfs : List TS) (ub : List Int) (h : Stitchable df
       exact ⟨(ub[k], _), mem_rsOf.mpr ⟨k, 0, hk, by omega, by simp [hk], rfl⟩, rfl⟩
   let Us : List TS := ub.map fun u => nona (((rsOf F ub).filter (·.1 == u)).flatMap (·.2))
   refine ⟨F, ub.map fun u => (u, nona (((rsOf F ub).filter (·.1 == u)).flatMap (·.2))), hF, ?_, ?_, ?_⟩
-  · rw [unslice_eq, hkeys]
+  · rw [unslice_eq _ _ h.inc, hkeys]
   · simp [List.map_map, Function.comp_def]
   · have hmap : (ub.map fun u => (u, nona (((rsOf F ub).filter (·.1 == u)).flatMap (·.2)))).map (·.2) = Us := by
       simp [Us, List.map_map, Function.comp_def]
@@ -813,7 +813,7 @@ theorem unslice_restitch_series (dfs : List TS) (ub : List Int) (h : Stitchable 
       · rintro rfl; rfl
   let Us : List TS := ub.map fun u => nona (((rsOf F ub).filter (·.1 == u)).flatMap (·.2))
   refine ⟨F, ub.map fun u => (u, nona (((rsOf F ub).filter (·.1 == u)).flatMap (·.2))), hF, ?_, ?_, ?_⟩
-  · rw [unslice_eq, hkeys]
+  · rw [unslice_eq _ _ h.inc, hkeys]
   · simp [List.map_map, Function.comp_def]
   · have hmap : (ub.map fun u => (u, nona (((rsOf F ub).filter (·.1 == u)).flatMap (·.2)))).map (·.2) = Us := by
       simp [Us, List.map_map, Function.comp_def]
@@ -878,7 +878,7 @@ theorem unslice_restitch_nan_cols (dfs : List TS) (ub : List Int) (h : Stitchabl
       exact ⟨(ub[k], _), mem_rsOf.mpr ⟨k, 0, hk, by omega, by simp [hk], rfl⟩, rfl⟩
   let Us : List TS := ub.map fun u => nona (((rsOf F ub).filter (·.1 == u)).flatMap (·.2))
   refine ⟨F, ub.map fun u => (u, nona (((rsOf F ub).filter (·.1 == u)).flatMap (·.2))), hF, ?_, ?_, ?_⟩
-  · rw [unslice_eq, hkeys]
+  · rw [unslice_eq _ _ h.inc, hkeys]
   · simp [List.map_map, Function.comp_def]
   · have hmap : (ub.map fun u => (u, nona (((rsOf F ub).filter (·.1 == u)).flatMap (·.2)))).map (·.2) = Us := by
       simp [Us, List.map_map, Function.comp_def]
@@ -1010,7 +1010,7 @@ theorem unslice_restitch_nan_series (dfs : List TS) (ub : List Int) (h : Stitcha
       · rintro rfl; rfl
   let Us : List TS := ub.map fun u => nona (((rsOf F ub).filter (·.1 == u)).flatMap (·.2))
   refine ⟨F, ub.map fun u => (u, nona (((rsOf F ub).filter (·.1 == u)).flatMap (·.2))), hF, ?_, ?_, ?_⟩
-  · rw [unslice_eq, hkeys]
+  · rw [unslice_eq _ _ h.inc, hkeys]
   · simp [List.map_map, Function.comp_def]
   · have hmap : (ub.map fun u => (u, nona (((rsOf F ub).filter (·.1 == u)).flatMap (·.2)))).map (·.2) = Us := by
       simp [Us, List.map_map, Function.comp_def]
@@ -1245,6 +1245,73 @@ theorem live_iff (r : Int × List (Option Int)) : live r = true ↔ ∃ v ∈ r.
   simp only [live, List.any_eq_true, Option.isSome_iff_ne_none]
 
 example : (⟨1, [(0, [some 1]), (1, [none]), (2, [some 3])]⟩ : Frame).dropNaRows = ⟨1, [(0, [some 1]), (2, [some 3])]⟩ := rfl
+
+/-! ### df_unslice under a DECREASING bound list (the quantifier: "all increasing or decreasing bound lists") -/
+
+/-- **unslice_restitch_decreasing** - the round trip for a strictly decreasing list of upper bounds (series in the matching
+    order), ANY values: the stitched frame `F` is the frame of the increasing spelling, `df_unslice(F, ub)` hands back one
+    series per bound IN THE ORDER OF THE BOUNDS GIVEN, and `df_slice(list(U.values()), ub = ub, n)` reproduces `F` up to its
+    all-NaN rows.  (Repo fix C13-U1: before it `df_unslice` used the decreasing list as it stood - every window but the
+    first empty, all rows filed under the first bound; `unsliceInc_decreasing_loses` below is that behaviour.) -/
+theorem unslice_restitch_decreasing (dfs : List TS) (ub : List Int) (hlen : dfs.length = ub.length) (htwo : 2 ≤ ub.length)
+    (hdec : ub.Pairwise (· > ·)) (hs : ∀ s ∈ dfs, s.Sorted) (n : Nat) :
+    ∃ F U, stitch dfs Option.none (some ub) (some ['(', ']']) n = .ok (some F) ∧
+      stitch dfs.reverse Option.none (some ub.reverse) (some ['(', ']']) n = .ok (some F) ∧
+      unslice F ub = .ok U ∧ U.map (·.1) = ub ∧
+      stitch (U.map (·.2)) Option.none (some ub) (some ['(', ']']) n = .ok (some F.dropNaRows) := by
+  have hinc : ub.reverse.Pairwise (· < ·) := List.pairwise_reverse.mpr (hdec.imp (fun h => h))
+  have hS : Stitchable dfs.reverse ub.reverse :=
+    ⟨by simp [hlen], by simpa using htwo, pairwise_nonDecreasing _ (hinc.imp (fun h => Int.le_of_lt h))⟩
+  have h1 : nonDecreasing ub = false := decreasing_not_nonDecreasing ub htwo hdec
+  obtain ⟨F, U, e1, e2, e3, e4⟩ := unslice_restitch_exact dfs.reverse ub.reverse hS hinc
+    (fun s hm => hs s (List.mem_reverse.mp hm)) n
+  refine ⟨F, U.reverse, ?_, e1, ?_, ?_, ?_⟩
+  · rw [stitch_decreasing dfs ub _ n h1 hS.inc, e1]
+  · rw [unslice_dec F ub h1, ← unslice_inc F ub.reverse hS.inc, e2]; rfl
+  · rw [List.map_reverse, e3, List.reverse_reverse]
+  · rw [stitch_decreasing _ ub _ n h1 hS.inc, List.map_reverse, List.reverse_reverse, e4]
+
+/-- hence, as for increasing bounds, the round trip under a decreasing list reproduces the frame EXACTLY when no row of
+    it is NaN in every column -/
+theorem unslice_restitch_decreasing_iff (dfs : List TS) (ub : List Int) (hlen : dfs.length = ub.length) (htwo : 2 ≤ ub.length)
+    (hdec : ub.Pairwise (· > ·)) (hs : ∀ s ∈ dfs, s.Sorted) (n : Nat) :
+    ∃ F U, stitch dfs Option.none (some ub) (some ['(', ']']) n = .ok (some F) ∧ unslice F ub = .ok U ∧
+      (stitch (U.map (·.2)) Option.none (some ub) (some ['(', ']']) n = .ok (some F) ↔ ∀ r ∈ F.rows, live r = true) := by
+  obtain ⟨F, U, h1, _, h2, _, h4⟩ := unslice_restitch_decreasing dfs ub hlen htwo hdec hs n
+  refine ⟨F, U, h1, h2, ?_⟩
+  rw [h4]
+  cases F with
+  | mk w rows =>
+    simp only [Frame.dropNaRows, Except.ok.injEq, Option.some.injEq, Frame.mk.injEq, true_and, List.filter_eq_self]
+
+/-- the direction test is what makes it work: the body of `df_unslice` applied to the decreasing list as it stands (the code
+    before the fix) files every row under the first bound - witness of finding C13-U1, evaluated below -/
+def decSeries : List TS := [[(4, some 9), (6, some 10), (7, some 11)], [(2, some 5), (3, some 6), (4, some 7), (5, some 8)],
+  [(0, some 1), (1, some 2), (2, some 3), (3, some 4)]]
+def decBounds : List Int := [8, 4, 2]
+
+example : decSeries.length = decBounds.length ∧ 2 ≤ decBounds.length ∧ decBounds.Pairwise (· > ·) ∧ (∀ s ∈ decSeries, s.Sorted) :=
+  ⟨rfl, by decide, by decide, by decide⟩
+
+-- df_unslice as repaired: one series per bound in the order given; stitching them again returns the 7-row frame
+#guard okEq (do
+    let f ← stitch decSeries Option.none (some decBounds) (some ['(', ']']) 2
+    match f with
+    | some f => do
+        let u ← unslice f decBounds
+        let g ← stitch (u.map (·.2)) Option.none (some decBounds) (some ['(', ']']) 2
+        pure (g == some f && u.map (·.1) == decBounds && f.rows.length == 7)
+    | Option.none => pure false : Res Bool) true
+-- `unsliceInc_decreasing_loses`: the body on the decreasing list as it stands (before the fix) files all 7 rows under bound 8,
+-- nothing under 2, and the re-stitched frame has 4 of the 7 rows (the real code before 1bf1f4a: the same numbers)
+#guard okEq (do
+    let f ← stitch decSeries Option.none (some decBounds) (some ['(', ']']) 2
+    match f with
+    | some f => do
+        let u ← unsliceInc f decBounds
+        let g ← stitch (u.map (·.2)) Option.none (some decBounds) (some ['(', ']']) 2
+        pure (u.map (fun p => (p.1, p.2.length)), g.map (·.rows.length))
+    | Option.none => pure ([], Option.none) : Res (List (Int × Nat) × Option Nat)) ([(2, 0), (4, 2), (8, 7)], some 4)
 
 /-! ### `zipper`'s broadcasting of length-1 bound lists -/
 
